@@ -53,6 +53,7 @@ API_STEPS = [
     "compile",
     "unary_inplace_candidates",
     "binary_views",
+    "logspace_contraction",
 ]
 
 
@@ -150,14 +151,24 @@ class Watch:
         self.objects = 0
 
     def term_snapshot(self, x):
+        import numpy as np
+
         arrs = []
         _arrays_of(x, arrs)
+        # the data a term exposes: every array-valued instance attribute
+        # (Tensor.data, Gaussian.white_vec / prec_sqrt, ...), by identity and bytes
+        attrs = tuple(
+            (k, id(v), _array_sig(v))
+            for k, v in sorted(vars(x).items())
+            if isinstance(v, np.ndarray) and not k.startswith("_")
+        )
         return (
             type(x).__name__,
             tuple((k, repr(v)) for k, v in x.inputs.items()),
             repr(x.output),
             tuple(id(v) for v in x._ast_values),
             tuple(_array_sig(a) for a in arrs[:8]),
+            attrs,
         )
 
     def add_term(self, label, x):
@@ -182,8 +193,11 @@ class Watch:
                 )
         for oid, (x, snap, label) in self.snap.items():
             now = self.term_snapshot(x)
+            if len(now[5]) != len(snap[5]):  # array attributes cached later are not part of the snapshot
+                names = {a[0] for a in snap[5]}
+                now = now[:5] + (tuple(a for a in now[5] if a[0] in names),)
             if now != snap:
-                fields = ["class", "inputs", "output", "ast_values", "data"]
+                fields = ["class", "inputs", "output", "ast_values", "data", "array attributes"]
                 diff = [f for f, a, b in zip(fields, snap, now) if a != b]
                 raise Violation(
                     "term-mutated",
@@ -211,6 +225,7 @@ class ApiCtx:
         self.r = r
         self.np = np
         self.f = funsor
+        self.held = []
         self.watch = watch
         self.tripwire = tripwire
         self.OD = OrderedDict
@@ -224,8 +239,30 @@ class ApiCtx:
         self.trans = self.leaf("trans", g.uniform(-1.0, 0.0, (4, 2, 2)))
         A = g.standard_normal((2, 3, 3))
         P = A @ np.swapaxes(A, -1, -2) + 0.5 * np.eye(3)
-        self.prec_sqrt = self.leaf("prec_sqrt", np.linalg.cholesky(P))
+        Q, _ = np.linalg.qr(g.standard_normal((3, 3)))
+        # a square root of the precision that is not its own Cholesky factor
+        self.prec_sqrt = self.leaf("prec_sqrt", np.linalg.cholesky(P) @ Q)
+        l1 = g.uniform(-2.0, 1.0, (2, 3))
+        l1[0, 1] = -np.inf
+        l1[1, 2] = -np.inf
+        l2 = g.uniform(-2.0, 1.0, (3, 2))
+        l2[2, 0] = -np.inf
+        self.l_ij = self.leaf("l_ij", l1)
+        self.l_jk = self.leaf("l_jk", l2)
         self.white = self.leaf("white", g.standard_normal((2, 3)))
+        # terms the session holds from the start: the catalogue operates on
+        # previously obtained funsors (hash-consing hands the same objects back)
+        for label, term in [
+            ("held a_ij", self.T(self.a_ij, "ij")),
+            ("held b_jk", self.T(self.b_jk, "jk")),
+            ("held c_i", self.T(self.c_i, "i")),
+            ("held e_ij", self.T(self.e_ij2, "ij")),
+            ("held l_ij", self.T(self.l_ij, "ij")),
+            ("held l_jk", self.T(self.l_jk, "jk")),
+            ("held gaussian", self.gaussian()),
+        ]:
+            self.held.append(term)
+            watch.add_term(label, term)
 
     def leaf(self, label, arr):
         self.watch.add_array(label, arr)
@@ -373,6 +410,23 @@ def api_step(name, ctx, env_values):
         out.append(ops.safesub(a, c))
         out.append(ops.safediv(a, c))
         out.append(ops.clamp(a, 0.5, 1.5))
+        return out
+    if name == "logspace_contraction":
+        la, lb = ctx.T(ctx.l_ij, "ij"), ctx.T(ctx.l_jk, "jk")
+        from funsor.cnf import Contraction
+
+        out = [
+            Contraction(ops.logaddexp, ops.add, frozenset([f.Variable("j", f.Bint[3])]), la, lb),
+            Contraction(ops.logaddexp, ops.add, frozenset([f.Variable("k", f.Bint[2])]), la, lb),
+            (la + lb).reduce(ops.logaddexp, "j"),
+            (la + lb).reduce(ops.logaddexp, frozenset(["i", "j", "k"])),
+            f.sum_product.sum_product(ops.logaddexp, ops.add, [la, lb], frozenset(["j"]), frozenset()),
+            la.reduce(ops.logaddexp, "j"),
+            la.exp(),
+        ]
+        with f.interpretations.lazy:
+            x = (la + lb).reduce(ops.logaddexp, "j")
+        out.append(f.optimizer.apply_optimizer(x))
         return out
     if name == "binary_views":
         v = a(j=f.terms.Slice("j", 0, 2, 1, 3))  # a view of the user's array
